@@ -29,7 +29,36 @@ def special_docs(rng):
                          N("GET /x", [N("200 any")])])   # cyclic but never used
     out.append(base() + [N("URL /u", [N("PASTE @m"), N("POST", [N("200 any")])]),
                          N("MACRO @m", [N("GET", [N("200 any")], explicit=True)], explicit=True)])
+    # reuse without a cycle: one macro pasted twice by another, a diamond
+    out.append(base() + [N("MACRO @inner", [N("Body any")], explicit=True),
+                         N("MACRO @outer", [N("200", [N("PASTE @inner")], explicit=True), N("404", [N("PASTE @inner")], explicit=True)], explicit=True),
+                         N("GET /a", [N("PASTE @outer")])])
+    out.append(base() + [N("MACRO @d", [N("Body any")], explicit=True),
+                         N("MACRO @b", [N("200", [N("PASTE @d")], explicit=True)], explicit=True),
+                         N("MACRO @c", [N("404", [N("PASTE @d")], explicit=True)], explicit=True),
+                         N("MACRO @a", [N("PASTE @b"), N("PASTE @c")], explicit=True),
+                         N("GET /x", [N("PASTE @a")]), N("POST /x", [N("PASTE @b"), N("PASTE @b")])])
     return out
+
+
+def gen_macro_dag(rng):
+    """an acyclic macro graph with reuse: macro i pastes macros j < i, possibly the same one twice"""
+    k = rng.randint(2, 5)
+    roots = [N("JSIGHT 0.3")]
+    macros = []
+    for i in range(k):
+        body = []
+        for _ in range(rng.randint(1, 3)):
+            if i > 0 and rng.random() < 0.6:
+                body.append(N("PASTE @m%d" % rng.randrange(i)))
+            else:
+                body.append(N("%d any" % rng.choice([200, 201, 400, 404, 500])))
+        macros.append(N("MACRO @m%d" % i, body, explicit=True))
+    uses = [N(rng.choice(["GET", "POST", "PUT"]) + " /p%d" % j, [N("PASTE @m%d" % rng.randrange(k)) for _ in range(rng.randint(1, 2))])
+            for j in range(rng.randint(1, 3))]
+    blocks = macros + uses
+    rng.shuffle(blocks)
+    return roots + blocks
 
 
 def classify(roots, what):
@@ -55,6 +84,8 @@ def run(tier, out, model_ok, proof):
     docs = special_docs(rng)
     for i in range(3000 if big else 350):
         docs.append(treecorr.gen_structured(rng, with_macros=True))
+    for i in range(1500 if big else 150):
+        docs.append(gen_macro_dag(rng))
     lay = layout.Layout(random.Random(0))
     cases, pairs = [], []
     for i, roots in enumerate(docs):
@@ -100,6 +131,12 @@ def run(tier, out, model_ok, proof):
                                            "class": classify(roots, "catalog"), "input": src})
         else:
             rej += 1
+            # the other direction, for the two errors that are about the macro graph itself: every
+            # macro is defined and there is no cycle, used or not, so neither may be reported
+            msg = docgen.err_text(m)
+            if im["end"] == "ok" and not meta.has_cycle_anywhere(roots) and (msg.startswith("macro not found") or msg.startswith("file dependency recursion is detected")):
+                out.violations.append({"what": "an acyclic, fully defined macro graph is rejected (%s) although the inlined form is accepted" % msg[:60],
+                                       "class": classify(roots, "graph"), "input": src})
     # tie B: expanded forests, macro table, registered enums — implementation vs model
     mism = []
     if model_ok:
@@ -111,7 +148,7 @@ def run(tier, out, model_ok, proof):
     out.coverage.update({
         "evaluations": len(cases),
         "distinct_nontrivial": sum(1 for _, r, _ in pairs if any(n.text.startswith("PASTE") for n in treecorr_flat(r))),
-        "rule": "structured valid documents with sibling runs abstracted into (nested, explicit-body) MACROs + hand-picked shapes (macro with ENUM/TYPE used 0/1/2 times, use before definition, undefined macro, cycles of length 1-3, cyclic but unused); each macro form is built and compared with its inlined form (reference inliner lib/meta.py) and its expanded forest / macro table / enum registrations are compared with the extracted Coq model; non-trivial = contains a PASTE",
+        "rule": "structured valid documents with sibling runs abstracted into (nested, explicit-body) MACROs + hand-picked shapes (macro with ENUM/TYPE used 0/1/2 times, use before definition, undefined macro, cycles of length 1-3, cyclic but unused, a macro pasted twice by another, diamonds) + random acyclic macro graphs with reuse; each macro form is built and compared with its inlined form (reference inliner lib/meta.py) and its expanded forest / macro table / enum registrations are compared with the extracted Coq model; non-trivial = contains a PASTE",
         "samples": [bytes.fromhex(c["files"]["root.jst"]).decode("latin1")[:300] for c in cases[:2]],
         "traces_validated_against_impl": (len([c for c in cases if c["id"].startswith("m")]) - len(mism)) if model_ok else 0,
         "accepted_pairs": acc, "rejected": rej,
@@ -119,7 +156,7 @@ def run(tier, out, model_ok, proof):
         "exhaustive": False,
     })
     out.assumptions += [
-        "PARTIAL: expand/inline equivalence is checked, not proved; stated direction only (macro form accepted => inlined form accepted with the same catalog)",
+        "PARTIAL: expand/inline equivalence is checked, not proved; checked: macro form accepted => inlined form accepted with the same catalog, and an acyclic fully defined macro graph is never rejected for recursion or an undefined macro",
     ]
 
 
